@@ -140,7 +140,13 @@ func genC16Server(r *PRNG, scn *Scenario) *Scenario {
 	}
 	cc := ConnCfg{}
 	if r.Chance(3, 4) {
-		cc.FaultsB = []OpFault{{Side: "a", K: r.Range(0, 14), Kind: hsFaultKinds[r.Intn(len(hsFaultKinds))], N: r.Pick([]int{0, 1, 50})}}
+		side := "a"
+		if scn.HS.Srv.Server == "nethttp" {
+			// net/http's background reader and the handler use the connection from two goroutines:
+			// only the per-side counters are schedule-independent there
+			side = r.PickS([]string{"r", "w"})
+		}
+		cc.FaultsB = []OpFault{{Side: side, K: r.Range(0, 14), Kind: hsFaultKinds[r.Intn(len(hsFaultKinds))], N: r.Pick([]int{0, 1, 50})}}
 	}
 	scn.Net = NetCfg{DefCap: 1 << 16, Conns: []ConnCfg{cc}}
 	return scn
